@@ -30,12 +30,14 @@ Inductive op :=
 
 Inductive ev :=
 | EInvoke (p : bool) (call : nat)      (* responder for call runs at peer p *)
-| EFire (p : bool) (call : nat)
+| EFire (p : bool) (call : nat) (o : outcome)
 | EResult (call : nat) (r : res)       (* the callRemote Deferred of call fired *)
 | ENested (call : nat)                 (* a callback / errback issued call [call] *)
 | ELost
 | EQuit                                (* the connection goes down because a peer closed it (QuitBox) *)
-| ENoop.
+| ENoop
+| ECall (call : nat) (k : kind)       (* ghost: call was made, its command's responder behaves as k *)
+| EProduced (call : nat) (r : res).   (* ghost: the responder side produced r as the reply to call *)
 
 Record st := mk {
   up : bool;
@@ -89,8 +91,8 @@ Definition place (p : bool) (k : kind) (s : st) : st * list ev :=
   let s0 := set_ncalls (S id) s in
   if up s then
     let tag := S (cnt s p) in
-    (emit p (BCmd tag id k) (set_outs p (outs s p ++ [(tag, id)]) (set_cnt p tag s0)), [])
-  else (s0, [EResult id RLost]).
+    (emit p (BCmd tag id k) (set_outs p (outs s p ++ [(tag, id)]) (set_cnt p tag s0)), [ECall id k])
+  else (s0, [ECall id k; EResult id RLost]).
 (** ... issued from inside a callback / errback *)
 Definition nested (p : bool) (s : st) : st * list ev :=
   let '(s1, e) := place p Know s in (s1, ENested (ncalls s) :: e).
@@ -98,16 +100,33 @@ Definition nested (p : bool) (s : st) : st * list ev :=
 Definition fire_result (q : bool) (c : nat) (r : res) (s : st) : st * list ev :=
   if mem c (follows s) then let '(s1, e) := nested q s in (s1, EResult c r :: e) else (s, [EResult c r]).
 
+(** what a responder of kind k / a pending responder completing with o produces for call c *)
+Definition kind_res (k : kind) (c : nat) : res :=
+  match k with
+  | Know | Klater => ROk c | Kdeclared | Ksub => RDeclared | Kfatal => RFatal
+  | Kundeclared => RUnknown | Kunknown => RUnhandled
+  end.
+Definition out_res (o : outcome) (c : nat) : res :=
+  match o with Outok => ROk c | Outdeclared | Outsub => RDeclared | Outfatal => RFatal | Outundeclared => RUnknown end.
+(** the reply box carrying r for (tag, call); fatal results go out as a QuitBox *)
+Definition box_of_res (tag call : nat) (r : res) : box :=
+  match r with
+  | ROk _ => BAns tag call
+  | RDeclared => BErr tag call EDeclared
+  | RFatal => BErr tag call EFatal
+  | RUnknown => BErr tag call EUnknownFatal
+  | RUnhandled | RLost => BErr tag call EUnhandled
+  end.
+Definition fatal_res (r : res) : bool := match r with RFatal | RUnknown => true | _ => false end.
+
 (** peer q receives box b: (state, events, q asked to close the connection) *)
 Definition deliver_box (q : bool) (b : box) (s : st) : st * list ev * bool :=
   match b with
-  | BCmd tag call Kunknown => (emit q (BErr tag call EUnhandled) s, [], false)
-  | BCmd tag call Know => (emit q (BAns tag call) s, [EInvoke q call], false)
   | BCmd tag call Klater => (set_pending (pending s ++ [(q, tag, call)]) s, [EInvoke q call], false)
-  | BCmd tag call Kdeclared => (emit q (BErr tag call EDeclared) s, [EInvoke q call], false)
-  | BCmd tag call Ksub => (emit q (BErr tag call EDeclared) s, [EInvoke q call], false)
-  | BCmd tag call Kfatal => (emit q (BErr tag call EFatal) s, [EInvoke q call], true)
-  | BCmd tag call Kundeclared => (emit q (BErr tag call EUnknownFatal) s, [EInvoke q call], true)
+  | BCmd tag call k =>
+      let r := kind_res k call in
+      (emit q (box_of_res tag call r) s,
+       (match k with Kunknown => [] | _ => [EInvoke q call] end) ++ [EProduced call r], fatal_res r)
   | BAns tag n =>
       match lookup tag (outs s q) with
       | Some c => let '(s1, e) := fire_result q c (ROk n) (set_outs q (remove_tag tag (outs s q)) s) in (s1, e, false)
@@ -177,7 +196,7 @@ Definition step (s : st) (o : op) : st * list ev :=
   | OCall p k f =>
       let s0 := if f then set_follows (ncalls s :: follows s) s else s in
       if up s then place p k s0
-      else fire_result p (ncalls s) RLost (set_ncalls (S (ncalls s)) s0)
+      else let '(s1, e) := fire_result p (ncalls s) RLost (set_ncalls (S (ncalls s)) s0) in (s1, ECall (ncalls s) k :: e)
   | ODeliver d n => deliver_n d n s
   | OFire i o =>
       match nth_error (pending s) i with
@@ -185,15 +204,12 @@ Definition step (s : st) (o : op) : st * list ev :=
       | Some (me, tag, call) =>
           let s0 := set_pending (remove_nth i (pending s)) s in
           if up s then
-            match o with
-            | Outok => (emit me (BAns tag call) s0, [EFire me call])
-            | Outdeclared | Outsub => (emit me (BErr tag call EDeclared) s0, [EFire me call])
-            | Outfatal =>
-                let '(s1, e1) := close_by me (emit me (BErr tag call EFatal) s0) in (s1, EFire me call :: e1)
-            | Outundeclared =>
-                let '(s1, e1) := close_by me (emit me (BErr tag call EUnknownFatal) s0) in (s1, EFire me call :: e1)
-            end
-          else (s0, [EFire me call])
+            let r := out_res o call in
+            let s1 := emit me (box_of_res tag call r) s0 in
+            if fatal_res r
+            then let '(s2, e2) := close_by me s1 in (s2, EFire me call o :: EProduced call r :: e2)
+            else (s1, [EFire me call o; EProduced call r])
+          else (s0, [EFire me call o])
       end
   | ODisc => if up s then let '(s1, e1) := lose s in (s1, ELost :: e1) else (s, [ENoop])
   end.
